@@ -269,8 +269,8 @@ def run(args):
         print(v["what"])
         return 1
     quick = args.tier == "quick"
-    N = 64 if quick else 96
-    payloads = [("_factorize", N, None), ("_divisors", 48 if quick else 96, None), ("_factorize_imperfect", 36 if quick else 56, None)]
+    N = 64 if quick else 80
+    payloads = [("_factorize", N, None), ("_divisors", 48 if quick else 96, None), ("_factorize_imperfect", 36 if quick else 48, None)]
     for inner in (1, 2, 3, 4):
         payloads.append(("gpfs", 48 if quick else 64, (False, inner)))
     for inner, Nq, Nt in ((1, 24, 36), (2, 36, 48), (3, 36, 54), (4, 48, 64)):
@@ -289,7 +289,7 @@ def run(args):
         PID, args.tier, "model_checking", stats, t0, violations[:5], [],
         functions_encoded=["make_tile_shapes._factorize", "make_tile_shapes._factorize_imperfect", "make_tile_shapes.get_possible_factor_sizes (incl. nested _try_admit)",
                            "_mathfuncs._divisors", "_mathfuncs._count_factorizations"],
-        bounds=dict(_factorize=f"n in 1..{N}", _divisors=f"n in 1..{48 if quick else 96}", _factorize_imperfect=f"n in 1..{36 if quick else 56}",
+        bounds=dict(_factorize=f"n in 1..{N}", _divisors=f"n in 1..{48 if quick else 96}", _factorize_imperfect=f"n in 1..{36 if quick else 48}",
                     _count_factorizations=f"n in 1..{Nc} (1..9 for length 4), every perfect/imperfect pattern of length 2..{Lmax}",
                     get_possible_factor_sizes="perfect: n in 1..%d, inner in 1..4; imperfect: (inner, n<=) in %s" % (48 if quick else 64, [(1, 24 if quick else 36), (2, 36 if quick else 48), (3, 36 if quick else 54), (4, 48 if quick else 64)]),
                     outside="coarseness != 1; inner sizes that do not divide the outer size; sizes beyond the bounds"),
